@@ -548,9 +548,10 @@ def monitorOp (mu : Mon) (prev : Args) (toks : List String) (implOk : Bool) (out
       let snTotal : Option Nat := match findRaw O p.id with
         | some r => (snapAt O r.start).map (·.total)
         | none => none
-      if dirty && snTotal != some p.total then
+      if dirty && (snTotal != some p.total || t.total > p.total) then
         (match snTotal with
           | some st =>
+            -- (the proposer's ballot carries the post-update weight, so the ballots may outweigh even the snapshot total)
             let base := max st t.total
             if (p.status == "passed" || p.status == "executed") && !(passes p.thr base t true true) && isExp p.expires blk then
               [mk "C03" "C03/flex/propose-after-group-update-in-same-block/passed-below-threshold"
